@@ -71,6 +71,18 @@ def gen_case(rng, tier, index):
         ops = [["len", 0, 0, 0]] + [["get_abs", i, 0, 0] for i in probes if -n <= i < n] + [["it_new", 0, 0, 0], ["it_next", 0, 0, 0]]
         return {"content": content, "variant": VARIANTS[(index // 7) % len(VARIANTS)], "index": "built", "index_seed": 0,
                 "ops": ops, "big": True}
+    if index % 60 == 9:
+        # files whose size is an exact multiple of the usual buffer / chunk sizes (4 KiB, 8 KiB, 64 KiB, 128 KiB), with and
+        # without the final terminator: 16-byte lines
+        n = rng.choice([256, 512, 4096, 8192])
+        content = "".join(f"{i:015d}\n" for i in range(n))
+        if rng.random() < 0.3:
+            content = content[:-1]
+        probes = sorted({0, 1, n - 1, n - 2, -1, 255, 256, 511, n // 2} | {rng.randrange(n) for _ in range(4)})
+        ops = [["len", 0, 0, 0]] + [["get_abs", i, 0, 0] for i in probes if -n <= i < n] + [["it_new", 0, 0, 0], ["it_next", 0, 0, 0],
+                                                                                             ["slice", 1, 2, 3]]
+        return {"content": content, "variant": VARIANTS[(index // 60) % len(VARIANTS)], "index": "built", "index_seed": 0,
+                "ops": ops, "big": True}
     n = rng.choice([0, 1, 1, 2, 3, 4, 5, 6, 8, 12])
     lines = [rng.choice(ALPHABET) for _ in range(n)]
     if index % 11 == 0 and n:
